@@ -71,10 +71,13 @@ class Universe:
         self.error = None
 
     def texts(self):
+        if getattr(self, "_texts", None) is not None:
+            return self._texts
         out = {}
         for i, r in enumerate(self.roots):
             for f in sorted(pathlib.Path(r["dir"]).rglob("*.dsdl")):
                 out[f"{i}/{r['dir'].name}/{f.relative_to(r['dir']).as_posix()}"] = f.read_text()
+        self._texts = out
         return out
 
     def read(self):
@@ -104,6 +107,22 @@ def corpus_universes():
     return out
 
 
+def add_version_twins(ctx, ns):
+    """Several versions of one type whose dependency sets (and composite kinds) differ, in both orders."""
+    cands = [g for g in ns.types if g.role == "message" and not g.model.deprecated]
+    if len(cands) < 2:
+        return
+    root = pathlib.Path(ns.root)
+    ref = lambda g: f"{g.full_name}.{g.version[0]}.{g.version[1]}"
+    for j in range(3):
+        a, b = ctx.rng.sample(cands, 2)
+        bodies = [f"{ref(a)} x\n@sealed\n", f"{ref(b)}[<=2] y\nbool[3] z\n@sealed\n", f"@union\n{ref(b)} p\n{ref(a)}[2] q\n@sealed\n", "uint8 n\n@sealed\n"]
+        ctx.rng.shuffle(bodies)
+        for k, body in enumerate(bodies[:ctx.rng.randint(2, 4)]):
+            (root / f"Twin{j}.{k + 1}.0.dsdl").write_text(body)
+            ctx.count("version_twin_definitions")
+
+
 def generated_universes(ctx, n_gen, n_simple, n_types):
     from . import dsdlgen, dsdlgen_simple
     out = []
@@ -119,6 +138,7 @@ def generated_universes(ctx, n_gen, n_simple, n_types):
             ctx.extra.setdefault("dsdlgen_errors", []).append(str(e)[:200])
             continue
         ctx.count("dsdlgen_dropped_definitions", len(ns.dropped))
+        add_version_twins(ctx, ns)
         out.append(Universe(f"dsdlgen:{k}", [{"dir": pathlib.Path(ns.root), "lookup": []}], "dsdlgen"))
     for k in range(n_simple):
         base = ctx.scratch / f"simple{k}"
@@ -354,14 +374,18 @@ def configurations(quick):
         cs.append(Cfg("c/sysinc", "c", [], overrides={"prefer_system_includes": True}))
     # ---- C++
     for std in ["c++14", "c++17", "c++20", "c++17-pmr"]:
-        cs.append(Cfg(f"cpp/{std}", "cpp", [], std=std))
-        cs.append(Cfg(f"cpp/{std}+omit", "cpp", [], std=std, omit=True))
+        # quick tier: every standard, with and without support, but c++20 / c++17-pmr each in one of the two modes only
+        if not quick or std != "c++17-pmr":
+            cs.append(Cfg(f"cpp/{std}", "cpp", [], std=std))
+        if not quick or std != "c++20":
+            cs.append(Cfg(f"cpp/{std}+omit", "cpp", [], std=std, omit=True))
     cs.append(Cfg("cpp/c++14+allopts", "cpp", all_opts, std="c++14"))
-    cs.append(Cfg("cpp/c++17+nofloat", "cpp", nofloat, std="c++17"))
+    if not quick:
+        cs.append(Cfg("cpp/c++17+nofloat", "cpp", nofloat, std="c++17"))
     # CETL is not available offline: generated and scanned, not compiled
     cs.append(Cfg("cpp/cetl++14-17+omit", "cpp", [], std="cetl++14-17", omit=True, compile_ok=False))
-    cs.append(Cfg("cpp/c++17+nostd+omit", "cpp", [], std="c++17", omit=True, overrides={"use_standard_types": False}, compile_ok=False))
     if not quick:
+        cs.append(Cfg("cpp/c++17+nostd+omit", "cpp", [], std="c++17", omit=True, overrides={"use_standard_types": False}, compile_ok=False))
         cs.append(Cfg("cpp/c++17+allopts", "cpp", all_opts, std="c++17"))
         cs.append(Cfg("cpp/c++20+asserts", "cpp", ["--enable-serialization-asserts"], std="c++20"))
         cs.append(Cfg("cpp/c++17-pmr+allopts", "cpp", all_opts, std="c++17-pmr"))
@@ -435,11 +459,19 @@ _CPP_SUPPORT = re.compile(r"\bnunavut::support\b")
 _INCLUDE = re.compile(r"^[ \t]*#[ \t]*include[ \t]+(\S+)", re.M)
 
 
+_LEX = re.compile(r"//(?:\\[ \t]*\n|\?\?/[ \t]*\n|[^\n])*|/\*[\s\S]*?\*/|" + r'"(?:\\.|[^"\\\n])*"' + "|" + r"'(?:\\.|[^'\\\n])*'")
+
+
+def _lex_repl(m):
+    g = m.group(0)
+    if g.startswith("//") or g.startswith("/*"):
+        return " "          # a line comment continued by a trailing backslash (or ??/) swallows the next line, as in the compiler
+    return '""' if g.startswith('"') else "''"
+
+
 def strip_text(text):
-    includes = _INCLUDE.findall(text)
-    t = _C_COMMENT.sub(" ", text)
-    t = _LINE_COMMENT.sub("", t)
-    t = _STRING.sub('""', t)
+    includes = _INCLUDE.findall(_LEX.sub(lambda m: " " if m.group(0)[:2] in ("//", "/*") else m.group(0), text))
+    t = _LEX.sub(_lex_repl, text)
     t = "\n".join(l for l in t.split("\n") if not l.lstrip().startswith("#"))   # macro bodies are not compiled until used
     return includes, t
 
@@ -532,15 +564,24 @@ def run_compile(job):
     return job, first, "\n".join(lines[:12])
 
 
+_MACRO_CACHE = {}
+
+
 def defined_macros(job):
-    """Names of the object-like / function-like macros visible at the end of the one-line translation unit."""
+    """Names of the macros visible after including every header of the output tree (one preprocessor run per tree and compiler)."""
     outdir, header, cmd, xlang = job[:4]
+    key = (str(outdir), cmd[0], cmd[1])
+    if key in _MACRO_CACHE:
+        return _MACRO_CACHE[key]
+    hs = sorted(p.relative_to(outdir).as_posix() for p in pathlib.Path(outdir).rglob("*.h*"))
+    _MACRO_CACHE[key] = set()
     try:
-        p = subprocess.run(cmd[:2] + ["-dM", "-E", "-I", str(outdir), "-x", xlang, "-"], input=f'#include "{header}"\n', capture_output=True,
-                           text=True, timeout=CC_TIMEOUT)
+        p = subprocess.run(cmd[:2] + ["-dM", "-E", "-I", str(outdir), "-x", xlang, "-"], input="".join(f'#include "{h}"\n' for h in hs),
+                           capture_output=True, text=True, timeout=CC_TIMEOUT)
     except subprocess.TimeoutExpired:
         return set()
-    return set(re.findall(r"^#define (\w+)", p.stdout, re.M))
+    _MACRO_CACHE[key] = set(re.findall(r"^#define (\w+)", p.stdout, re.M))
+    return _MACRO_CACHE[key]
 
 
 def dsdl_identifiers(uni):
@@ -556,6 +597,55 @@ def dsdl_identifiers(uni):
                 names.add(c.short_name)
                 names.update(a.name for a in c.attributes if a.name)
     return names
+
+
+def job_command(job, tu):
+    outdir, header, cmd, xlang = job[:4]
+    full = cmd + ["-fsyntax-only", "-I", str(outdir), "-x", xlang, str(tu)]
+    if "--enable-serialization-asserts" in job_args(job):
+        full.insert(1, "-DNUNAVUT_ASSERT(x)=(void)(x)")   # supplying NUNAVUT_ASSERT is the documented duty of the user of this option
+    return full
+
+
+def run_compile_jobs(jobs, workdir, parallel=32):
+    """All compile jobs through `parallel` shell scripts that each run their share one after the other.  (Spawning every
+    compiler from this process serialises on fork/exec latency on a loaded machine: 0.2 s per job whatever the pool size.)
+    Returns [(job, first diagnostic line or None, detail)]."""
+    import shlex
+    workdir.mkdir(parents=True, exist_ok=True)
+    tus = {}
+    shards = [[] for _ in range(parallel)]
+    for idx, job in enumerate(jobs):
+        key = (str(job[0]), job[1], job[3])
+        if key not in tus:
+            tu = workdir / f"tu{len(tus)}.{'c' if job[3] == 'c' else 'cpp'}"
+            tu.write_text(f'#include "{job[1]}"\n')
+            tus[key] = tu
+        cmd = " ".join(shlex.quote(x) for x in ["timeout", str(CC_TIMEOUT)] + job_command(job, tus[key]))
+        shards[idx % parallel].append(f"{cmd} > /dev/null 2> {idx}.err < /dev/null; echo $? > {idx}.rc\n")
+    procs = []
+    for k, lines in enumerate(shards):
+        if lines:
+            (workdir / f"shard{k}.sh").write_text("".join(lines))
+            procs.append(subprocess.Popen(["sh", f"shard{k}.sh"], cwd=str(workdir), stdin=subprocess.DEVNULL, stdout=subprocess.DEVNULL,
+                                          stderr=subprocess.DEVNULL))
+    for pr in procs:
+        pr.wait()
+    results = []
+    for idx, job in enumerate(jobs):
+        try:
+            rc = int((workdir / f"{idx}.rc").read_text().strip() or "1")
+            err = (workdir / f"{idx}.err").read_text(errors="replace")
+        except (OSError, ValueError):
+            rc, err = 125, "the compile job did not run"
+        if rc == 0 and not err.strip():
+            results.append((job, None, ""))
+            continue
+        lines = err.replace(str(tus[(str(job[0]), job[1], job[3])]), "<tu>").splitlines()
+        first = "timeout" if rc == 124 else next((l for l in lines if re.search(r"\b(error|warning)\b", l)), lines[0] if lines else f"exit {rc}")
+        results.append((job, first, "\n".join(lines[:12])))
+    shutil.rmtree(workdir, ignore_errors=True)
+    return results
 
 
 def classify(cfg, cmd, first, guard_collision):
@@ -684,9 +774,19 @@ def run(ctx: common.Ctx):
     phases = ctx.extra.setdefault("phase_seconds", {})
     t_phase = [time.time()]
 
+    import resource
+    cpu = ctx.extra.setdefault("phase_cpu_seconds", {})
+    c_phase = [0.0]
+
+    def cpu_now():
+        a, b = resource.getrusage(resource.RUSAGE_CHILDREN), resource.getrusage(resource.RUSAGE_SELF)
+        return a.ru_utime + a.ru_stime + b.ru_utime + b.ru_stime
+
     def phase(name):
         phases[name] = round(time.time() - t_phase[0], 1)
         t_phase[0] = time.time()
+        cpu[name] = round(cpu_now() - c_phase[0], 1)
+        c_phase[0] = cpu_now()
     np_dir = ensure_numpy(ctx)
     yaml_dir = ctx.scratch / "yaml"
     yaml_dir.mkdir()
@@ -736,8 +836,11 @@ def run(ctx: common.Ctx):
     # ---- generation (parallel) ---------------------------------------------------------------------------------------
     gen_jobs = []
     for ui, u in enumerate(unis):
-        for c in cfgs:
+        for ci, c in enumerate(cfgs):
             if c.only and c.only not in u.name:
+                continue
+            # quick tier: the corpus meets every configuration; a generated universe the three basic ones and every second of the rest
+            if quick and u.origin != "corpus" and c.ident not in ("c/default", "cpp/c++17", "py/default") and (ci + ui) % 2:
                 continue
             out = ctx.scratch / "out" / f"u{ui}" / c.ident.replace("/", "_")
             out.mkdir(parents=True)
@@ -934,8 +1037,8 @@ def run(ctx: common.Ctx):
     ctx.extra["compile_jobs"] = len(compile_jobs)
     ndiag = 0
     ident_cache = {}
-    with cf.ThreadPoolExecutor(max_workers=16) as ex:
-        for job, first, detail in ex.map(run_compile, compile_jobs):
+    if True:
+        for job, first, detail in run_compile_jobs(compile_jobs, ctx.scratch / "cc"):
             ctx.count("compiled:" + job[2][0])
             if first is None:
                 continue
